@@ -23,6 +23,8 @@ def run(ctx):
     failures += progflow.judge(ctx, progflow.scale_cases(ctx, "C02"), "scale")
     # every ordered pair of feature snippets x every composition mode (spec/FamPairs.tla): the pairs whose highest property is this one
     failures += progflow.judge(ctx, progflow.pair_cases(ctx, "C02"), "pairs")
+    # legal spellings the renderer never produces (spec/FamSyn.tla): the TEXT is run, the program it must mean is validated
+    failures += progflow.judge(ctx, progflow.syn_cases(ctx, "C02"), "syn")
     # run-time histories (spec/FamHist.tla): the same constructs visited again and again along different dynamic paths
     failures += progflow.judge(ctx, progflow.hist_cases(ctx, ("calls",)), "hist")
     progflow.report(ctx, failures)
